@@ -798,7 +798,15 @@ pub fn gen_c10(tier: &str, rng: &mut Rng, emit: &mut Emit) {
         let k = i % 41;
         emit.case(40, l(vec![a(62), l((0..k).map(|_| desc_sx(rng)).collect())]));
     }
-    gen_sized_templates(tier, rng, emit);
+    // (the Spec's descriptor walk recomputes the remaining length at every item: quadratic in the payload, so the 2^20-byte
+    // templates of the thorough tier are left to C06 / C07, whose oracles do not walk the payload; here payloads stay <= 100 KB)
+    gen_sized_templates("quick", rng, emit);
+    if tier == "thorough" {
+        for _ in 0..40 {
+            let n = rng.range(2, 100_000) as usize;
+            if let Some(t) = sized_template(rng, n) { emit.case(40, t); }
+        }
+    }
     // descriptors whose own last bytes read 79 00 (the end tag's bytes) or 79 xx: as the only child, as the last child and in
     // front of others -- a template must frame them like any other descriptor
     for rep in 0..(if tier == "thorough" { 40 } else { 6 }) {
